@@ -49,7 +49,7 @@ TickStrScript(n) ==
     \o <<[op |-> "finalstr"]>>
 (* a terminal far wider than any buffer of blanks: one draw, one tick, the finish *)
 WideScript == <<[op |-> "bar", w |-> 1000, len |-> 2], [op |-> "force_draw"]>> \o Ticks(1) \o <<[op |-> "finish"]>>
-Script(n) == BarScript(1, -1, n, FALSE) \o BarScript(10, 2, n, TRUE) \o BarScript(1, 2, n, FALSE) \o BarScript(10, -1, n, FALSE) \o WideScript \o TickStrScript(n)
+Script(n) == BarScript(1, -1, n, FALSE) \o BarScript(10, 2, n, TRUE) \o BarScript(1, 2, n, FALSE) \o BarScript(10, -1, n, FALSE) \o WideScript \o <<[op |-> "slow"]>> \o TickStrScript(n)
 
 Init == hist = <<>> /\ nt = DefaultTicks /\ open = TRUE /\ done = FALSE
 Step == /\ open /\ Len(hist) < D
